@@ -6,6 +6,8 @@ import RedisVerif.Lemmas.Crdt
 namespace RedisVerif
 namespace AE
 
+variable {vs : ValueStream}
+
 /-! ## sorting `(key_hash, value_hash)` pairs -/
 
 theorem pairLe_total (a b : Nat × Nat) : pairLe a b = true ∨ pairLe b a = true := by
@@ -89,7 +91,7 @@ theorem iter_perm {π π' : List Nat} (s : NMap RV) (h : π.Perm π') : (iter π
   h.filterMap _
 
 theorem bucketDigests_perm (H : Hasher) (depth : Nat) {π π' : List Nat} (s : NMap RV) (b : Nat)
-    (h : π.Perm π') : (bucketDigests H depth π s b).Perm (bucketDigests H depth π' s b) :=
+    (h : π.Perm π') : (bucketDigests H vs depth π s b).Perm (bucketDigests H vs depth π' s b) :=
   ((iter_perm s h).map _).filter _
 
 theorem foldl_maxTs_perm {ds ds' : List KeyDigest} (h : ds.Perm ds') (m : Nat) :
@@ -114,10 +116,10 @@ theorem fromDigests_sorted_perm (H : Hasher) {ds ds' : List KeyDigest} (h : ds.P
     rw [hp, hlen, foldl_maxTs_perm h]
 
 theorem fromState_sorted_perm (H : Hasher) (depth : Nat) {π π' : List Nat} (s : NMap RV)
-    (h : π.Perm π') : fromState H true depth π s = fromState H true depth π' s := by
+    (h : π.Perm π') : fromState H true vs depth π s = fromState H true vs depth π' s := by
   unfold fromState
-  have : (List.range (2 ^ depth)).map (fun b => fromDigests H true (bucketDigests H depth π s b))
-      = (List.range (2 ^ depth)).map (fun b => fromDigests H true (bucketDigests H depth π' s b)) := by
+  have : (List.range (2 ^ depth)).map (fun b => fromDigests H true (bucketDigests H vs depth π s b))
+      = (List.range (2 ^ depth)).map (fun b => fromDigests H true (bucketDigests H vs depth π' s b)) := by
     apply List.map_congr_left
     intro b _
     exact fromDigests_sorted_perm H (bucketDigests_perm H depth s b h)
@@ -125,28 +127,34 @@ theorem fromState_sorted_perm (H : Hasher) (depth : Nat) {π π' : List Nat} (s 
 
 /-! ## what the digest looks at -/
 
-/-- what `KeyDigest::new` reads of a value: outer stamp and live LWW bytes -/
-def projOf (v : RV) : Nat × Nat × Option Bytes := (v.ts.time, v.ts.rid, v.get)
+/-- a value stream starts with the outer time (true of `pinnedStream` and `canonicalStream`):
+    `KeyDigest.timestamp` is then a function of the stream -/
+def StreamOK (vs : ValueStream) : Prop := ∀ v : RV, (vs v).headD 0 = v.ts.time
 
-/-- the projection of a state that the digest is a function of -/
-def proj (s : NMap RV) : NMap (Nat × Nat × Option Bytes) := s.map fun p => (p.1, projOf p.2)
+theorem streamOK_pinned : StreamOK pinnedStream := fun _ => rfl
+theorem streamOK_canonical : StreamOK canonicalStream := fun _ => rfl
+
+/-- the projection of a state that the digest is a function of: per key, the value stream -/
+def proj (vs : ValueStream) (s : NMap RV) : NMap (List Nat) := s.map fun p => (p.1, vs p.2)
 
 /-- digest of one projected entry -/
-def kdOf (H : Hasher) (p : Nat × Nat × Nat × Option Bytes) : KeyDigest :=
-  { keyHash := H.key p.1, valueHash := H.val p.2.1 p.2.2.1 p.2.2.2, timestamp := p.2.1 }
+def kdOf (H : Hasher) (p : Nat × List Nat) : KeyDigest :=
+  { keyHash := H.key p.1, valueHash := H.val p.2, timestamp := p.2.headD 0 }
 
-def projBucket (H : Hasher) (depth b : Nat) (s : NMap RV) : NMap (Nat × Nat × Option Bytes) :=
-  (proj s).filter fun p => H.key p.1 % 2 ^ depth == b
+def projBucket (H : Hasher) (vs : ValueStream) (depth b : Nat) (s : NMap RV) : NMap (List Nat) :=
+  (proj vs s).filter fun p => H.key p.1 % 2 ^ depth == b
 
-theorem keyDigest_eq_kdOf (H : Hasher) (k : Nat) (v : RV) : keyDigest H k v = kdOf H (k, projOf v) := rfl
+theorem keyDigest_eq_kdOf (H : Hasher) (hvs : StreamOK vs) (k : Nat) (v : RV) :
+    keyDigest H vs k v = kdOf H (k, vs v) := by
+  simp only [keyDigest, kdOf, hvs v]
 
-theorem wf_proj {s : NMap RV} (h : NMap.WF s) : NMap.WF (proj s) := by
+theorem wf_proj {s : NMap RV} (h : NMap.WF s) : NMap.WF (proj vs s) := by
   unfold NMap.WF proj at *
   rw [List.pairwise_map]
   exact h
 
 theorem wf_projBucket {s : NMap RV} (H : Hasher) (depth b : Nat) (h : NMap.WF s) :
-    NMap.WF (projBucket H depth b s) := List.Pairwise.filter _ (wf_proj h)
+    NMap.WF (projBucket H vs depth b s) := List.Pairwise.filter _ (wf_proj h)
 
 /-- two canonical maps with the same entries are equal -/
 theorem nmap_eq_of_perm {ν : Type} {a b : NMap ν} (ha : NMap.WF a) (hb : NMap.WF b) (h : a.Perm b) :
@@ -179,12 +187,15 @@ theorem iter_valid_perm {π : List Nat} {s : NMap RV} (hs : NMap.WF s) (hπ : Va
   exact this
 
 /-- the digests pushed into bucket `b`, up to order, are those of the projected bucket -/
-theorem bucketDigests_perm_proj (H : Hasher) (depth : Nat) {π : List Nat} {s : NMap RV} (b : Nat)
-    (hs : NMap.WF s) (hπ : ValidOrder π s) :
-    (bucketDigests H depth π s b).Perm ((projBucket H depth b s).map (kdOf H)) := by
+theorem bucketDigests_perm_proj (H : Hasher) (hvs : StreamOK vs) (depth : Nat) {π : List Nat} {s : NMap RV}
+    (b : Nat) (hs : NMap.WF s) (hπ : ValidOrder π s) :
+    (bucketDigests H vs depth π s b).Perm ((projBucket H vs depth b s).map (kdOf H)) := by
   unfold bucketDigests projBucket proj
-  have h1 := ((iter_valid_perm hs hπ).map (fun p => keyDigest H p.1 p.2)).filter (fun d => bucketOf depth d == b)
+  have h1 := ((iter_valid_perm hs hπ).map (fun p => keyDigest H vs p.1 p.2)).filter (fun d => bucketOf depth d == b)
   refine h1.trans ?_
+  have hk : (fun p : Nat × RV => keyDigest H vs p.1 p.2) = (kdOf H ∘ fun p : Nat × RV => (p.1, vs p.2)) := by
+    funext p; exact keyDigest_eq_kdOf H hvs p.1 p.2
+  rw [hk]
   simp only [List.filter_map, List.map_map]
   exact List.Perm.of_eq rfl
 
@@ -194,7 +205,7 @@ theorem bucketDigests_perm_proj (H : Hasher) (depth : Nat) {π : List Nat} {s : 
     `MerkleNode::empty` uses -/
 structure Ideal (H : Hasher) : Prop where
   keyInj : ∀ a b, H.key a = H.key b → a = b
-  valInj : ∀ t r l t' r' l', H.val t r l = H.val t' r' l' → t = t' ∧ r = r' ∧ l = l'
+  valInj : ∀ a b, H.val a = H.val b → a = b
   wordsInj : ∀ a b, H.words a = H.words b → a = b
   wordsNe0 : ∀ a, H.words a ≠ 0
 
@@ -234,17 +245,14 @@ theorem perm_of_map_injective {α β : Type} [DecidableEq α] [DecidableEq β] {
   rw [← h1 l, ← h1 l']
   exact h (g a)
 
-theorem pair_kdOf_injective {H : Hasher} (hI : Ideal H) (x y : Nat × Nat × Nat × Option Bytes)
+theorem pair_kdOf_injective {H : Hasher} (hI : Ideal H) (x y : Nat × List Nat)
     (h : ((kdOf H x).keyHash, (kdOf H x).valueHash) = ((kdOf H y).keyHash, (kdOf H y).valueHash)) :
     x = y := by
-  obtain ⟨k, t, r, l⟩ := x
-  obtain ⟨k', t', r', l'⟩ := y
+  obtain ⟨k, st⟩ := x
+  obtain ⟨k', st'⟩ := y
   simp only [kdOf, Prod.mk.injEq] at h
   obtain ⟨h1, h2⟩ := h
-  have := hI.keyInj _ _ h1
-  obtain ⟨h3, h4, h5⟩ := hI.valInj _ _ _ _ _ _ h2
-  subst this; subst h3; subst h4; subst h5
-  rfl
+  rw [hI.keyInj _ _ h1, hI.valInj _ _ h2]
 
 /-- equal `from_digests` hashes: the same multiset of `(key_hash, value_hash)` pairs was hashed
     (with or without the sort) -/
@@ -280,26 +288,26 @@ theorem pairs_perm_of_hash_eq {H : Hasher} (hI : Ideal H) (sb : Bool) {ds ds' : 
 
 /-- **per bucket**: equal bucket hashes force equal projected buckets (ideal hash), for the
     sorted and for the unsorted fold -/
-theorem projBucket_eq_of_hash_eq {H : Hasher} (hI : Ideal H) (sb : Bool) (depth : Nat) {π π' : List Nat}
+theorem projBucket_eq_of_hash_eq {H : Hasher} (hI : Ideal H) (hvs : StreamOK vs) (sb : Bool) (depth : Nat) {π π' : List Nat}
     {s t : NMap RV} (b : Nat) (hs : NMap.WF s) (ht : NMap.WF t) (hπ : ValidOrder π s)
     (hπ' : ValidOrder π' t)
-    (h : (fromDigests H sb (bucketDigests H depth π s b)).hash
-        = (fromDigests H sb (bucketDigests H depth π' t b)).hash) :
-    projBucket H depth b s = projBucket H depth b t := by
-  have p1 := (bucketDigests_perm_proj H depth b hs hπ).map fun d => (d.keyHash, d.valueHash)
-  have p2 := (bucketDigests_perm_proj H depth b ht hπ').map fun d => (d.keyHash, d.valueHash)
+    (h : (fromDigests H sb (bucketDigests H vs depth π s b)).hash
+        = (fromDigests H sb (bucketDigests H vs depth π' t b)).hash) :
+    projBucket H vs depth b s = projBucket H vs depth b t := by
+  have p1 := (bucketDigests_perm_proj H hvs depth b hs hπ).map fun d => (d.keyHash, d.valueHash)
+  have p2 := (bucketDigests_perm_proj H hvs depth b ht hπ').map fun d => (d.keyHash, d.valueHash)
   have h2 := p1.symm.trans ((pairs_perm_of_hash_eq hI sb h).trans p2)
   apply nmap_eq_of_perm (wf_projBucket H depth b hs) (wf_projBucket H depth b ht)
   rw [List.map_map, List.map_map] at h2
   exact perm_of_map_injective (fun a b hab => pair_kdOf_injective hI a b hab) h2
 
 /-- … and conversely equal projected buckets give equal bucket nodes -/
-theorem node_eq_of_projBucket_eq (H : Hasher) (depth : Nat) {π π' : List Nat}
+theorem node_eq_of_projBucket_eq (H : Hasher) (hvs : StreamOK vs) (depth : Nat) {π π' : List Nat}
     {s t : NMap RV} (b : Nat) (hs : NMap.WF s) (ht : NMap.WF t) (hπ : ValidOrder π s)
-    (hπ' : ValidOrder π' t) (h : projBucket H depth b s = projBucket H depth b t) :
-    fromDigests H true (bucketDigests H depth π s b) = fromDigests H true (bucketDigests H depth π' t b) := by
-  rw [fromDigests_sorted_perm H (bucketDigests_perm_proj H depth b hs hπ),
-    fromDigests_sorted_perm H (bucketDigests_perm_proj H depth b ht hπ'), h]
+    (hπ' : ValidOrder π' t) (h : projBucket H vs depth b s = projBucket H vs depth b t) :
+    fromDigests H true (bucketDigests H vs depth π s b) = fromDigests H true (bucketDigests H vs depth π' t b) := by
+  rw [fromDigests_sorted_perm H (bucketDigests_perm_proj H hvs depth b hs hπ),
+    fromDigests_sorted_perm H (bucketDigests_perm_proj H hvs depth b ht hπ'), h]
 
 /-! ## the root hash determines every bucket hash (ideal hash) -/
 
@@ -400,53 +408,53 @@ theorem perm_of_buckets {α : Type} [DecidableEq α] (f : α → Nat) (n : Nat) 
   rw [← h1 l, ← h1 l', h (f a) (hf a)]
 
 theorem proj_eq_of_buckets (H : Hasher) (depth : Nat) {s t : NMap RV} (hs : NMap.WF s) (ht : NMap.WF t)
-    (h : ∀ b, b < 2 ^ depth → projBucket H depth b s = projBucket H depth b t) : proj s = proj t := by
+    (h : ∀ b, b < 2 ^ depth → projBucket H vs depth b s = projBucket H vs depth b t) : proj vs s = proj vs t := by
   apply nmap_eq_of_perm (wf_proj hs) (wf_proj ht)
   apply perm_of_buckets (fun p => H.key p.1 % 2 ^ depth) (2 ^ depth)
   · intro x; exact Nat.mod_lt _ (Nat.two_pow_pos depth)
   · exact h
 
 theorem fromState_buckets_length (H : Hasher) (sb : Bool) (depth : Nat) (π : List Nat) (s : NMap RV) :
-    (fromState H sb depth π s).buckets.length = 2 ^ depth := by
+    (fromState H sb vs depth π s).buckets.length = 2 ^ depth := by
   simp [fromState]
 
 theorem fromState_bucket_get (H : Hasher) (sb : Bool) (depth : Nat) (π : List Nat) (s : NMap RV)
     (b : Nat) (hb : b < 2 ^ depth) :
-    (fromState H sb depth π s).buckets[b]? = some (fromDigests H sb (bucketDigests H depth π s b)) := by
+    (fromState H sb vs depth π s).buckets[b]? = some (fromDigests H sb (bucketDigests H vs depth π s b)) := by
   simp [fromState, hb]
 
 /-- **completeness**: with an ideal hash equal root hashes force equal projections -/
-theorem proj_eq_of_root_eq {H : Hasher} (hI : Ideal H) (sb : Bool) (depth : Nat) {π π' : List Nat} {s t : NMap RV}
+theorem proj_eq_of_root_eq {H : Hasher} (hI : Ideal H) (hvs : StreamOK vs) (sb : Bool) (depth : Nat) {π π' : List Nat} {s t : NMap RV}
     (hs : NMap.WF s) (ht : NMap.WF t) (hπ : ValidOrder π s) (hπ' : ValidOrder π' t)
-    (h : (fromState H sb depth π s).rootHash = (fromState H sb depth π' t).rootHash) :
-    proj s = proj t := by
+    (h : (fromState H sb vs depth π s).rootHash = (fromState H sb vs depth π' t).rootHash) :
+    proj vs s = proj vs t := by
   apply proj_eq_of_buckets H depth hs ht
   intro b hb
-  apply projBucket_eq_of_hash_eq hI sb depth b hs ht hπ hπ'
-  have hroot : (rootOf H (fromState H sb depth π s).buckets).hash
-      = (rootOf H (fromState H sb depth π' t).buckets).hash := h
+  apply projBucket_eq_of_hash_eq hI hvs sb depth b hs ht hπ hπ'
+  have hroot : (rootOf H (fromState H sb vs depth π s).buckets).hash
+      = (rootOf H (fromState H sb vs depth π' t).buckets).hash := h
   have hmap := rootOf_hash_inj hI
     (by rw [fromState_buckets_length, fromState_buckets_length])
     (by intro n hn; simp only [fromState, List.mem_map] at hn; obtain ⟨_, _, rfl⟩ := hn
         exact nodeOK_fromDigests hI _ _)
     (by intro n hn; simp only [fromState, List.mem_map] at hn; obtain ⟨_, _, rfl⟩ := hn
         exact nodeOK_fromDigests hI _ _) hroot
-  have h1 : ((fromState H sb depth π s).buckets.map (·.hash))[b]? = ((fromState H sb depth π' t).buckets.map (·.hash))[b]? := by
+  have h1 : ((fromState H sb vs depth π s).buckets.map (·.hash))[b]? = ((fromState H sb vs depth π' t).buckets.map (·.hash))[b]? := by
     rw [hmap]
   rw [List.getElem?_map, List.getElem?_map, fromState_bucket_get _ _ _ _ _ _ hb,
     fromState_bucket_get _ _ _ _ _ _ hb] at h1
   simpa using h1
 
 /-- **soundness**: equal projections give equal digests, whatever the two iteration orders -/
-theorem fromState_eq_of_proj_eq (H : Hasher) (depth : Nat) {π π' : List Nat} {s t : NMap RV}
+theorem fromState_eq_of_proj_eq (H : Hasher) (hvs : StreamOK vs) (depth : Nat) {π π' : List Nat} {s t : NMap RV}
     (hs : NMap.WF s) (ht : NMap.WF t) (hπ : ValidOrder π s) (hπ' : ValidOrder π' t)
-    (h : proj s = proj t) : fromState H true depth π s = fromState H true depth π' t := by
+    (h : proj vs s = proj vs t) : fromState H true vs depth π s = fromState H true vs depth π' t := by
   unfold fromState
-  have : (List.range (2 ^ depth)).map (fun b => fromDigests H true (bucketDigests H depth π s b))
-      = (List.range (2 ^ depth)).map (fun b => fromDigests H true (bucketDigests H depth π' t b)) := by
+  have : (List.range (2 ^ depth)).map (fun b => fromDigests H true (bucketDigests H vs depth π s b))
+      = (List.range (2 ^ depth)).map (fun b => fromDigests H true (bucketDigests H vs depth π' t b)) := by
     apply List.map_congr_left
     intro b _
-    apply node_eq_of_projBucket_eq H depth b hs ht hπ hπ'
+    apply node_eq_of_projBucket_eq H hvs depth b hs ht hπ hπ'
     unfold projBucket; rw [h]
   simp only [this]
 
@@ -596,11 +604,11 @@ def candidates (H : Hasher) (depth : Nat) (π : List Nat) (s : NMap RV) (div : L
   (iter π s).filter fun p => div.contains (H.key p.1 % 2 ^ depth)
 
 theorem getKeysInBuckets_eq_take (H : Hasher) (depth limit : Nat) (π : List Nat) (s : NMap RV)
-    (div : List Nat) : getKeysInBuckets H depth limit π s div = (candidates H depth π s div).take limit := rfl
+    (div : List Nat) : getKeysInBuckets H vs depth limit π s div = (candidates H depth π s div).take limit := rfl
 
 theorem getKeysInBuckets_full {H : Hasher} {depth limit : Nat} {π : List Nat} {s : NMap RV}
     {div : List Nat} (h : (candidates H depth π s div).length ≤ limit) :
-    getKeysInBuckets H depth limit π s div = candidates H depth π s div := by
+    getKeysInBuckets H vs depth limit π s div = candidates H depth π s div := by
   rw [getKeysInBuckets_eq_take, List.take_of_length_le h]
 
 theorem lookup_candidates {H : Hasher} {depth : Nat} {π : List Nat} {s : NMap RV} (div : List Nat)
@@ -629,7 +637,7 @@ theorem get_apply_candidates {H : Hasher} {depth : Nat} {π : List Nat} {s t : N
     cases h1 : NMap.get s k <;> cases h2 : NMap.get t k <;> simp [optMerge, mergeInto]
   · simp only [hd, Bool.false_eq_true, if_false]
 
-theorem get_proj (s : NMap RV) (k : Nat) : NMap.get (proj s) k = (NMap.get s k).map projOf := by
+theorem get_proj (s : NMap RV) (k : Nat) : NMap.get (proj vs s) k = (NMap.get s k).map vs := by
   unfold proj
   induction s with
   | nil => rfl
@@ -640,10 +648,184 @@ theorem get_proj (s : NMap RV) (k : Nat) : NMap.get (proj s) k = (NMap.get s k).
     · exact ih
 
 theorem get_projBucket (H : Hasher) (depth b : Nat) (s : NMap RV) (k : Nat) :
-    NMap.get (projBucket H depth b s) k
-      = if H.key k % 2 ^ depth == b then (NMap.get s k).map projOf else none := by
+    NMap.get (projBucket H vs depth b s) k
+      = if H.key k % 2 ^ depth == b then (NMap.get s k).map vs else none := by
   unfold projBucket
   rw [← lookup_of_get, lookup_filter_key (fun k => H.key k % 2 ^ depth == b), lookup_of_get, get_proj]
+
+/-! ## the canonical value stream determines the value
+
+  Every serialiser below is *prefix-injective*: `f a ++ r = f b ++ r'` forces `a = b` and
+  `r = r'` (tags and length prefixes make the stream uniquely decodable). -/
+
+def PI {α : Type} (f : α → List Nat) : Prop :=
+  ∀ (a b : α) (r r' : List Nat), f a ++ r = f b ++ r' → a = b ∧ r = r'
+
+theorem PI_single : PI (fun n : Nat => [n]) := by
+  intro a b r r' h
+  simp only [List.cons_append, List.nil_append, List.cons.injEq] at h
+  exact h
+
+theorem PI_pairNat : PI (fun p : Nat × Nat => [p.1, p.2]) := by
+  intro a b r r' h
+  simp only [List.cons_append, List.nil_append, List.cons.injEq] at h
+  exact ⟨Prod.ext h.1 h.2.1, h.2.2⟩
+
+theorem flatMap_prefix_inj {α : Type} {f : α → List Nat} (hf : PI f) :
+    ∀ (l l' : List α) (r r' : List Nat), l.length = l'.length →
+      l.flatMap f ++ r = l'.flatMap f ++ r' → l = l' ∧ r = r' := by
+  intro l
+  induction l with
+  | nil =>
+    intro l' r r' hl h
+    cases l' with
+    | nil => exact ⟨rfl, by simpa using h⟩
+    | cons _ _ => simp at hl
+  | cons x xs ih =>
+    intro l' r r' hl h
+    cases l' with
+    | nil => simp at hl
+    | cons y ys =>
+      simp only [List.flatMap_cons, List.append_assoc] at h
+      obtain ⟨h1, h2⟩ := hf x y _ _ h
+      obtain ⟨h3, h4⟩ := ih ys r r' (by simpa using hl) h2
+      exact ⟨by rw [h1, h3], h4⟩
+
+theorem PI_serList {α : Type} {f : α → List Nat} (hf : PI f) : PI (serList f) := by
+  intro a b r r' h
+  simp only [serList, List.cons_append, List.cons.injEq] at h
+  exact flatMap_prefix_inj hf a b r r' h.1 h.2
+
+theorem PI_serBytes : PI serBytes := PI_serList PI_single
+theorem PI_serCounts : PI serCounts := PI_serList PI_pairNat
+theorem PI_serNSet : PI serNSet := PI_serList PI_single
+
+theorem PI_serOptBytes : PI serOptBytes := by
+  intro a b r r' h
+  cases a <;> cases b <;> simp only [serOptBytes, List.cons_append, List.nil_append, List.cons.injEq] at h
+  · exact ⟨rfl, h.2⟩
+  · omega
+  · omega
+  · obtain ⟨h1, h2⟩ := PI_serBytes _ _ _ _ h.2
+    exact ⟨by rw [h1], h2⟩
+
+theorem PI_serLww : PI serLww := by
+  intro a b r r' h
+  obtain ⟨va, ⟨ta, ra⟩, tba⟩ := a
+  obtain ⟨vb, ⟨tb, rb⟩, tbb⟩ := b
+  simp only [serLww, serStamp, List.append_assoc] at h
+  obtain ⟨h1, h2⟩ := PI_serOptBytes _ _ _ _ h
+  simp only [List.cons_append, List.nil_append, List.cons.injEq] at h2
+  obtain ⟨h3, h4, h5, h6⟩ := h2
+  subst h1; subst h3; subst h4
+  have : tba = tbb := by
+    cases tba <;> cases tbb <;> simp at h5 <;> rfl
+  subst this
+  exact ⟨rfl, h6⟩
+
+theorem PI_keyed {β : Type} {g : β → List Nat} (hg : PI g) : PI (fun p : Nat × β => p.1 :: g p.2) := by
+  intro a b r r' h
+  simp only [List.cons_append, List.cons.injEq] at h
+  obtain ⟨h1, h2⟩ := hg _ _ _ _ h.2
+  exact ⟨Prod.ext h.1 h1, h2⟩
+
+theorem PI_serCrdt : PI serCrdt := by
+  intro a b r r' h
+  cases a with
+  | lww x =>
+    cases b <;> simp only [serCrdt, List.cons_append, List.cons.injEq] at h <;> try omega
+    obtain ⟨h1, h2⟩ := PI_serLww _ _ _ _ h.2
+    exact ⟨by rw [h1], h2⟩
+  | gcounter x =>
+    cases b <;> simp only [serCrdt, List.cons_append, List.cons.injEq] at h <;> try omega
+    obtain ⟨h1, h2⟩ := PI_serCounts _ _ _ _ h.2
+    exact ⟨by rw [h1], h2⟩
+  | pncounter x y =>
+    cases b <;> simp only [serCrdt, List.cons_append, List.cons.injEq, List.append_assoc] at h <;> try omega
+    obtain ⟨h1, h2⟩ := PI_serCounts _ _ _ _ h.2
+    obtain ⟨h3, h4⟩ := PI_serCounts _ _ _ _ h2
+    exact ⟨by rw [h1, h3], h4⟩
+  | gset x =>
+    cases b <;> simp only [serCrdt, List.cons_append, List.cons.injEq] at h <;> try omega
+    obtain ⟨h1, h2⟩ := PI_serNSet _ _ _ _ h.2
+    exact ⟨by rw [h1], h2⟩
+  | orset x y =>
+    cases b <;> simp only [serCrdt, List.cons_append, List.cons.injEq, List.append_assoc] at h <;> try omega
+    obtain ⟨h1, h2⟩ := PI_serList (PI_keyed PI_serNSet) _ _ _ _ h.2
+    obtain ⟨h3, h4⟩ := PI_serCounts _ _ _ _ h2
+    exact ⟨by rw [h1, h3], h4⟩
+  | hash x =>
+    cases b <;> simp only [serCrdt, List.cons_append, List.cons.injEq] at h <;> try omega
+    obtain ⟨h1, h2⟩ := PI_serList (PI_keyed PI_serLww) _ _ _ _ h.2
+    exact ⟨by rw [h1], h2⟩
+
+theorem PI_serOptNat : PI serOptNat := by
+  intro a b r r' h
+  cases a <;> cases b <;> simp only [serOptNat, List.cons_append, List.nil_append, List.cons.injEq] at h
+  · exact ⟨rfl, h.2⟩
+  · omega
+  · omega
+  · exact ⟨by rw [h.2.1], h.2.2⟩
+
+theorem PI_serOptCounts : PI serOptCounts := by
+  intro a b r r' h
+  cases a <;> cases b <;> simp only [serOptCounts, List.cons_append, List.nil_append, List.cons.injEq] at h
+  · exact ⟨rfl, h.2⟩
+  · omega
+  · omega
+  · obtain ⟨h1, h2⟩ := PI_serCounts _ _ _ _ h.2
+    exact ⟨by rw [h1], h2⟩
+
+/-- **two values that differ anywhere feed different streams to the value hasher** -/
+theorem canonicalStream_inj {v w : RV} (h : canonicalStream v = canonicalStream w) : v = w := by
+  obtain ⟨cv, vcv, ev, ⟨tv, rv⟩, rfv⟩ := v
+  obtain ⟨cw, vcw, ew, ⟨tw, rw'⟩, rfw⟩ := w
+  simp only [canonicalStream, serStamp, List.cons_append, List.nil_append, List.cons.injEq] at h
+  obtain ⟨h1, h2, h3⟩ := h
+  obtain ⟨h4, h5⟩ := PI_serCrdt _ _ _ _ h3
+  obtain ⟨h6, h7⟩ := PI_serOptCounts _ _ _ _ h5
+  obtain ⟨h8, h9⟩ := PI_serOptNat _ _ _ _ h7
+  have h10 : serOptNat rfv ++ [] = serOptNat rfw ++ [] := by simpa using h9
+  obtain ⟨h11, _⟩ := PI_serOptNat _ _ _ _ h10
+  subst h1; subst h2; subst h4; subst h6; subst h8; subst h11
+  rfl
+
+/-- what the pinned stream determines: outer stamp and live bytes -/
+theorem pinnedStream_inj {v w : RV} (h : pinnedStream v = pinnedStream w) :
+    v.ts = w.ts ∧ v.get = w.get := by
+  obtain ⟨cv, vcv, ev, ⟨tv, rv⟩, rfv⟩ := v
+  obtain ⟨cw, vcw, ew, ⟨tw, rw'⟩, rfw⟩ := w
+  simp only [pinnedStream, serStamp, List.cons_append, List.nil_append, List.cons.injEq] at h
+  obtain ⟨h1, h2, h3⟩ := h
+  subst h1; subst h2
+  refine ⟨rfl, ?_⟩
+  generalize RV.get _ = g1 at h3 ⊢
+  generalize RV.get _ = g2 at h3 ⊢
+  cases g1 <;> cases g2 <;> simp only [serBytes, serList] at h3
+  · rfl
+  · simp at h3
+  · simp at h3
+  · rename_i b1 b2
+    have h4 : serBytes b1 ++ [] = serBytes b2 ++ [] := by simpa [serBytes, serList] using h3
+    obtain ⟨h5, _⟩ := PI_serBytes _ _ _ _ h4
+    rw [h5]
+
+theorem proj_canonical_inj {s t : NMap RV} (h : proj canonicalStream s = proj canonicalStream t) : s = t := by
+  unfold proj at h
+  induction s generalizing t with
+  | nil =>
+    cases t with
+    | nil => rfl
+    | cons _ _ => simp at h
+  | cons p ps ih =>
+    cases t with
+    | nil => simp at h
+    | cons q qs =>
+      simp only [List.map_cons, List.cons.injEq, Prod.mk.injEq] at h
+      obtain ⟨⟨hk, hp⟩, hrest⟩ := h
+      rw [ih hrest]
+      congr 1
+      exact Prod.ext hk (canonicalStream_inj hp)
 
 /-! ## a concrete ideal hasher (non-vacuity of `Ideal`, and a hasher the kernel can run) -/
 
@@ -700,29 +882,63 @@ theorem enc_inj : ∀ (l l' : List Nat), enc l = enc l' → l = l' := by
       obtain ⟨h1, h2⟩ := pow_mul_odd_inj _ _ _ _ h
       rw [h1, ih ys h2]
 
-def optEnc : Option Bytes → List Nat
-  | none => [0]
-  | some bs => 1 :: bs
+/-- a pairing function of polynomial growth: `(a+b)² + b` -/
+def sqpair (a b : Nat) : Nat := (a + b) * (a + b) + b
 
-/-- a collision-free hasher that never returns 0 for a word stream -/
+theorem sqpair_inj {a b a' b' : Nat} (h : sqpair a b = sqpair a' b') : a = a' ∧ b = b' := by
+  unfold sqpair at h
+  have key : ∀ s s' c c' : Nat, c ≤ s → s * s + c = s' * s' + c' → ¬ s < s' := by
+    intro s s' c c' hc he hlt
+    have h1 : (s + 1) * (s + 1) ≤ s' * s' := Nat.mul_le_mul hlt hlt
+    have h2 : (s + 1) * (s + 1) = s * s + 2 * s + 1 := by
+      rw [Nat.add_mul, Nat.mul_add, Nat.mul_one, Nat.one_mul]; omega
+    rw [h2] at h1
+    generalize s * s = q at *
+    generalize s' * s' = q' at *
+    omega
+  have hs : a + b = a' + b' := by
+    rcases Nat.lt_trichotomy (a + b) (a' + b') with h1 | h1 | h1
+    · exact absurd h1 (key _ _ b b' (by omega) h)
+    · exact h1
+    · exact absurd h1 (key _ _ b' b (by omega) h.symm)
+  rw [hs] at h
+  generalize (a' + b') * (a' + b') = q at h
+  omega
+
+/-- injective code of a list whose elements may be large -/
+def encS : List Nat → Nat
+  | [] => 0
+  | x :: xs => sqpair x (encS xs) + 1
+
+theorem encS_inj : ∀ (l l' : List Nat), encS l = encS l' → l = l' := by
+  intro l
+  induction l with
+  | nil =>
+    intro l' h
+    cases l' with
+    | nil => rfl
+    | cons y ys => simp only [encS] at h; omega
+  | cons x xs ih =>
+    intro l' h
+    cases l' with
+    | nil => simp only [encS] at h; omega
+    | cons y ys =>
+      simp only [encS] at h
+      obtain ⟨h1, h2⟩ := sqpair_inj (by omega : sqpair x (encS xs) = sqpair y (encS ys))
+      rw [h1, ih ys h2]
+
+/-- a collision-free hasher that never returns 0 for a word stream: value streams (many small
+    words) are coded by `enc`, word streams (few large words) by `encS` -/
 def idealH : Hasher :=
   { key := fun k => k
-    val := fun t r l => enc (t :: r :: optEnc l)
-    words := fun l => enc l + 1 }
+    val := fun l => enc l
+    words := fun l => encS l + 1 }
 
 theorem ideal_idealH : Ideal idealH := by
-  refine ⟨fun a b h => h, ?_, ?_, ?_⟩
-  · intro t r l t' r' l' h
-    have := enc_inj _ _ h
-    simp only [List.cons.injEq] at this
-    obtain ⟨h1, h2, h3⟩ := this
-    refine ⟨h1, h2, ?_⟩
-    cases l <;> cases l' <;> simp [optEnc] at h3
-    · rfl
-    · rw [h3]
+  refine ⟨fun a b h => h, fun a b h => enc_inj a b h, ?_, ?_⟩
   · intro a b h
     simp only [idealH] at h
-    exact enc_inj _ _ (by omega)
+    exact encS_inj _ _ (by omega)
   · intro a
     simp only [idealH]
     omega
